@@ -3,7 +3,19 @@ use std::{borrow::Cow, fmt::Debug};
 use wasm_bindgen::JsValue;
 
 /// A DOM renderer.
+#[cfg(not(leptos_verif))]
 pub mod dom;
+/// A native in-memory DOM and its inspection API (only with `--cfg leptos_verif`).
+#[cfg(leptos_verif)]
+pub mod native_dom;
+/// A DOM renderer: with `--cfg leptos_verif` this is the native in-memory DOM.
+#[cfg(leptos_verif)]
+pub mod dom {
+    pub use super::native_dom::{
+        ClassList, Comment, CssStyleDeclaration, Dom, Element, Event, Node,
+        Placeholder, TemplateElement, Text,
+    };
+}
 
 /// The renderer being used for the application.
 ///
